@@ -148,10 +148,19 @@ struct Seq {
     archs: [PathBuf; 2],
     cases: Vec<(usize, usize, Vec<usize>)>, // entry point, pool kind, archive sequence
 }
-const ENTRY: [&str; 7] = ["extract_files_parallel", "extract_files_batched", "process_files_parallel", "extract_matching_parallel", "read_file_with_new_handle", "extract_with_config", "extract_with_config(skip_errors)"];
+const ENTRY: [&str; 8] = ["extract_files_parallel", "extract_files_batched", "process_files_parallel", "extract_matching_parallel", "read_file_with_new_handle", "extract_with_config", "extract_with_config(skip_errors)", "extract_with_config(1200 names: batched path, explicit thread count)"];
 const POOLS: [usize; 5] = [0, 1, 2, 4, 8]; // 0 = the global pool (caller thread outside any pool)
 fn seq_names() -> Vec<String> {
     (0..24).map(|i| format!("dir{}\\file_{i:02}.dat", i % 3)).collect()
+}
+/// the request list of an entry point (entry 7 cycles through the names up to 1200 requests)
+fn seq_request(e: usize) -> Vec<String> {
+    let names = seq_names();
+    if e == 7 {
+        (0..1200).map(|k| names[(k * 7) % names.len()].clone()).collect()
+    } else {
+        names
+    }
 }
 fn seq_content(a: usize, i: usize) -> Vec<u8> {
     format!("[archive {a}] content of file {i} {}", "y".repeat(i * 5 + a)).into_bytes()
@@ -194,7 +203,7 @@ impl Seq {
         Seq { dir, archs, cases }
     }
     fn one_call(&self, e: usize, a: usize) -> Result<Vec<(String, Vec<u8>)>, String> {
-        let names = seq_names();
+        let names = seq_request(e);
         let refs: Vec<&str> = names.iter().map(|s| s.as_str()).collect();
         let path = &self.archs[a];
         let pa = ParallelArchive::open(path).map_err(|e| e.to_string())?;
@@ -204,6 +213,10 @@ impl Seq {
             2 => pa.process_files_parallel(&refs, |n, d| Ok((n.to_string(), d))).map_err(|e| e.to_string()),
             3 => pa.extract_matching_parallel(|n| n.contains("file_")).map_err(|e| e.to_string()),
             4 => refs.iter().map(|n| pa.read_file_with_new_handle(n).map(|d| (n.to_string(), d)).map_err(|e| e.to_string())).collect(),
+            7 => {
+                let cfg = ParallelConfig::new().threads(3).batch_size(100);
+                extract_with_config(path, &refs, cfg).map_err(|e| e.to_string())?.into_iter().map(|(n, r)| r.map(|d| (n, d)).map_err(|e| e.to_string())).collect()
+            }
             _ => {
                 let cfg = ParallelConfig::new().threads(2).batch_size(5).skip_errors(e == 6);
                 extract_with_config(path, &refs, cfg).map_err(|e| e.to_string())?.into_iter().map(|(n, r)| r.map(|d| (n, d)).map_err(|e| e.to_string())).collect()
@@ -225,15 +238,17 @@ impl Space for Seq {
         r.nontrivial = true;
         r.key = format!("{i}");
         let _ = &self.dir;
-        let names = seq_names();
+        let names = seq_request(e);
         let body = || -> Vec<(usize, Result<Vec<(String, Vec<u8>)>, String>)> { s.iter().map(|a| (*a, self.one_call(e, *a))).collect() };
         let results = if POOLS[p] == 0 { body() } else { rayon::ThreadPoolBuilder::new().num_threads(POOLS[p]).build().unwrap().install(body) };
         for (step, (a, got)) in results.iter().enumerate() {
             // sequential reference from the archive this call was given
             let mut ar = Archive::open(&self.archs[*a]).unwrap();
             let mut want: Vec<(String, Vec<u8>)> = names.iter().map(|n| (n.clone(), ar.read_file(n).unwrap())).collect();
-            for (i, w) in want.iter().enumerate() {
-                assert_eq!(w.1, seq_content(*a, i), "reference read");
+            if e != 7 {
+                for (i, w) in want.iter().enumerate() {
+                    assert_eq!(w.1, seq_content(*a, i), "reference read");
+                }
             }
             match got {
                 Ok(v) => {
@@ -264,9 +279,10 @@ impl Space for Seq {
 }
 fn build(name: &str, _arg: &str, tier: Tier) -> Box<dyn Space> {
     match name {
-        "sweep" => Box::new(Sweep::new(tier, false)),
-        "big" => Box::new(Sweep::new(tier, true)),
-        "seq" => Box::new(Seq::new(tier)),
+        // one fresh process per case: the subject's pools and thread-locals are process-global state
+        "sweep" => Box::new(Forked(Sweep::new(tier, false))),
+        "big" => Box::new(Forked(Sweep::new(tier, true))),
+        "seq" => Box::new(Forked(Seq::new(tier))),
         _ => panic!("space {name}"),
     }
 }
@@ -274,7 +290,7 @@ fn main() {
     let Mode::Supervisor(mut c) = start("C09", "model_checking", build) else { return };
     // each case spawns its own pools of up to 32 threads: run fewer worker processes
     c.jobs = c.jobs.min(6);
-    c.rule = "full product threads {1,2,3,4,8,16,32} x batch {1,2,7,10,N} x list length {0,1,9,10,11,999,1000,1001,1100} x skip_errors x missing position {none,first,middle,last} on the real rayon; slot-by-slot comparison with sequential reads (uncontrolled scheduler: decides the configuration clause only); space big: threads {1,4,32} x batch {10,334,N} x list length {4999,5000,5001,6200} (around the 5000-name threshold of extract_with_config) x skip_errors x missing position, unsorted request lists with duplicates; space seq: every sequence of 1..3 (thorough 1..4) extractions over two archives holding the same names with different contents x 7 entry points x {global pool, installed pools of 1/2/4/8 threads} inside one process, each call compared with sequential reads of the archive it was given".into();
+    c.rule = "full product threads {1,2,3,4,8,16,32} x batch {1,2,7,10,N} x list length {0,1,9,10,11,999,1000,1001,1100} x skip_errors x missing position {none,first,middle,last} on the real rayon; slot-by-slot comparison with sequential reads (uncontrolled scheduler: decides the configuration clause only); space big: threads {1,4,32} x batch {10,334,N} x list length {4999,5000,5001,6200} (around the 5000-name threshold of extract_with_config) x skip_errors x missing position, unsorted request lists with duplicates; space seq: every sequence of 1..3 (thorough 1..4) extractions over two archives holding the same names with different contents x 8 entry points (one of them a 1200-name request on the batched path with an explicit thread count) x {global pool, installed pools of 1/2/4/8 threads} inside one process, each call compared with sequential reads of the archive it was given".into();
     c.run_space("sweep", "");
     c.run_space("seq", "");
     c.run_space("big", "");
